@@ -224,40 +224,366 @@ Proof.
   - right. use_enum.
   - left. is_null.
 Qed.
-Lemma iden_shape j : VK K_iden j -> name_doc j.
+Lemma iden_shape j : VK K_iden j -> name_doc false j.
 Proof.
   unfold VK. intros H. denote_in H (unf_in [K_iden]) 8. flat.
-  destruct j; try discriminate. inst. exists s. split; [reflexivity|]. split.
+  destruct j; try discriminate. inst. exists s. split; [reflexivity|]. split; simpl.
   - apply match_ident_spec. assumption.
   - match goal with E : enum_mem _ _ = false |- _ => exact (enum_mem_str_false _ _ E) end.
 Qed.
-Lemma prefix_prop_shape j : VK K_prefix j -> name_doc j.
+Lemma prefix_prop_shape j : VK K_prefix j -> name_doc false j.
 Proof.
   unfold VK. intros H. denote_in H (unf_in [K_prefix]) 3. apply iden_shape. exact H.
 Qed.
-Lemma opt_uuid_shape j : VK K_opt_uuid j -> j = JNull \/ exists s, j = JStr s /\ uuid_or_nl s.
+Lemma opt_uuid_shape j : VK K_opt_uuid j -> j = JNull \/ exists s, j = JStr s /\ uuidP false s.
 Proof.
   unfold VK. intros H. denote_in H (unf_in [K_opt_uuid]) 6. flat. the_or.
   - right. destruct j; try discriminate. inst. exists s. split; [reflexivity|assumption].
   - left. is_null.
 Qed.
 Lemma opt_tt_uuid_shape j :
-  VK K_opt_tt_uuid j -> j = JNull \/ exists s, j = JStr s /\ (uuid_or_nl s \/ s = "auto").
+  VK K_opt_tt_uuid j -> j = JNull \/ exists s, j = JStr s /\ (uuidP false s \/ s = "auto").
 Proof.
   unfold VK. intros H. denote_in H (unf_in [K_opt_tt_uuid]) 6. flat. the_or.
   - right. destruct j; try discriminate. exists s. split; [reflexivity|]. the_or.
     + left. match goal with U : V S3 (SRef K_opt_uuid) _ |- _ =>
-        destruct (opt_uuid_shape _ U) as [E|(s' & E & U')]; [discriminate|congruence] end.
+        destruct (opt_uuid_shape _ U) as [E|(s' & E & U')]; [discriminate|injection E as ->; exact U'] end.
     + right. the_or. match goal with E : jeq _ _ = true |- _ => simpl in E; apply String.eqb_eq in E; exact E end.
   - left. is_null.
 Qed.
-Lemma opt_offset_shape j : VK K_opt_offset j -> j = JNull \/ clock_offset_doc j.
+Lemma opt_offset_shape j : VK K_opt_offset j -> j = JNull \/ clock_offset_doc false j.
 Proof.
   unfold VK. intros H. denote_in H (unf_in [K_opt_offset]) 6. flat. the_or.
   - right. match goal with T : has_type_in j [TObj] = true |- _ => destruct (has_type_obj _ T) as [m ->] end.
     inst. flat. exists m. split; [reflexivity|]. split; [|split].
-    + intros x Hx. apply opt_int_min_0_shape. auto.
-    + intros x Hx. apply opt_int_min_0_shape. auto.
+    + intros x Hx. apply opt_int_min_0_shape. unfold VK; auto.
+    + intros x Hx. apply opt_int_min_0_shape. unfold VK; auto.
     + use_keys.
   - left. is_null.
+Qed.
+
+(* ---------------------------------------------------------------- more tactics *)
+Ltac clean := repeat match goal with H : forall x, lookup _ _ = Some x -> True |- _ => clear H end.
+Ltac look :=
+  repeat match goal with
+  | Hx : lookup ?k ?m = Some ?x0, H : forall x, lookup ?k ?m = Some x -> _ |- _ => specialize (H x0 Hx)
+  end; flat.
+Ltac req :=
+  match goal with |- required ?m ?k _ =>
+    match goal with Hk : has_key k m = true |- _ =>
+      let x := fresh "x" in let Hx := fresh "Hx" in
+      destruct (has_key_lookup _ _ Hk) as [x Hx]; exists x; split; [exact Hx|]; look end end.
+Ltac opt :=
+  let x := fresh "x" in let Hx := fresh "Hx" in
+  first [unfold optional | unfold present]; intros x Hx; look.
+Ltac vk L := apply L; unfold VK; assumption.
+Ltac to_obj j :=
+  match goal with T : has_type_in j [TObj] = true |- _ =>
+    let m := fresh "m" in destruct (has_type_obj _ T) as [m ->]; inst; flat; clean end.
+
+Lemma opt_env_shape j : VK K_opt_env j -> j = JNull \/ env_doc false j.
+Proof.
+  unfold VK. intros H. denote_in H (unf_in [K_opt_env]) 8. flat. the_or.
+  - right. to_obj j. exists m. split; [reflexivity|]. intros k v Hkv.
+    assert (Hp : pat_match PIdent k = true).
+    { destruct (pat_match PIdent k) eqn:E; [reflexivity|]. exfalso.
+      match goal with X : forall k x, In (k, x) m -> is_extra _ _ k = true -> False |- _ =>
+        apply (X k v Hkv) end.
+      unfold is_extra. cbn -[pat_match]. rewrite E. reflexivity. }
+    split; [apply match_ident_spec; exact Hp|].
+    match goal with X : forall k x, In (k, x) m -> pat_match PIdent k = true -> _ |- _ =>
+      specialize (X k v Hkv Hp) end.
+    flat. the_or.
+    + left. match goal with T : has_type_in v [TStr] = true |- _ => destruct (has_type_str _ T) as [s ->] end.
+      eexists; reflexivity.
+    + right. the_or. match goal with T : has_type_in v [TInt] = true |- _ => exact (as_int_of_type _ T) end.
+  - left. is_null.
+Qed.
+
+(* ---------------------------------------------------------------- field types *)
+
+Notation FT k := ("config/3/field-type#/definitions/" ++ k)%string.
+Definition ft_inl := map (fun k => FT k)
+  ["uint-ft"; "sint-ft"; "int-ft"; "bit-array-ft"; "ft-base"; "int-ft-props"; "uint-ft-class-prop";
+   "sint-ft-class-prop"; "enum-ft"; "enum-ft-props"; "uenum-ft"; "senum-ft"; "uenum-ft-class-prop";
+   "senum-ft-class-prop"; "real-ft"; "real-ft-class-prop"; "string-ft"; "string-ft-class-prop";
+   "array-ft"; "static-array-ft"; "static-array-ft-class-prop"; "struct-ft"; "struct-ft-class-prop";
+   "struct-ft-member"; "struct-ft-members"].
+
+Ltac int_ft_tac :=
+  match goal with j : json |- _ =>
+    to_obj j; eexists; split; [reflexivity|]; repeat split;
+    [ req; use_enum
+    | req; vk int_size_shape
+    | opt; vk opt_int_min_1_shape
+    | opt; vk opt_base_shape
+    | use_keys ] end.
+
+Theorem uint_ft_shape j : VK (FT "uint-ft") j -> int_ft_doc false uint_names j.
+Proof. unfold VK. intros H. denote_in H (unf_in ft_inl) 14. flat. int_ft_tac. Qed.
+Theorem sint_ft_shape j : VK (FT "sint-ft") j -> int_ft_doc false sint_names j.
+Proof. unfold VK. intros H. denote_in H (unf_in ft_inl) 14. flat. int_ft_tac. Qed.
+
+Lemma as_int_enum2 x z a b :
+  as_int x = Some z -> enum_mem x [JInt a; JInt b] = true -> (z = a \/ z = b)%Z.
+Proof.
+  unfold enum_mem. destruct x; simpl; try discriminate.
+  - intros [= ->] H. rewrite orb_false_r in H. apply orb_true_iff in H.
+    destruct H as [H|H]; apply Z.eqb_eq in H; auto.
+  - destruct f; simpl; try discriminate. destruct (Z.eqb (num mod Z.pos den) 0) eqn:E; [|discriminate].
+    intros [= <-] H. rewrite orb_false_r in H. apply orb_true_iff in H.
+    destruct H as [H|H]; apply Z.eqb_eq in H; subst num; [left|right]; apply Z.div_mul; lia.
+Qed.
+Lemma jeq_str x s : has_type_in x [TStr] = true -> jeq x (JStr s) = true -> str_in [s] x.
+Proof.
+  destruct x; simpl; try discriminate. intros _ H. apply String.eqb_eq in H. subst.
+  eexists; split; [reflexivity|simpl; auto].
+Qed.
+Ltac use_const :=
+  match goal with T : has_type_in ?x [TStr] = true, E : jeq ?x (JStr _) = true |- _ =>
+    exact (jeq_str _ _ T E) end.
+
+(* one enumeration mapping value *)
+Lemma enum_mapping_of x :
+  has_type_in x [TArr] = true ->
+  (forall l, x = JArr l -> 1 <= List.length l) ->
+  (forall l, x = JArr l -> forall r, In r l ->
+     (has_type_in r [TArr] = true /\
+      (forall l0, r = JArr l0 -> forall y, In y l0 -> has_type_in y [TInt] = true) /\
+      (forall l0, r = JArr l0 -> 2 <= List.length l0) /\
+      (forall l0, r = JArr l0 -> List.length l0 <= 2)) \/
+     has_type_in r [TInt] = true) ->
+  enum_mapping (is_int false) x.
+Proof.
+  intros T L R. destruct (has_type_arr _ T) as [l ->]. exists l. split; [reflexivity|]. split.
+  - apply nonempty_of_length. apply (L l eq_refl).
+  - intros r Hr. destruct (R l eq_refl r Hr) as [(Ta & I & L2 & L2')|Ti].
+    + right. destruct (has_type_arr _ Ta) as [l0 ->].
+      specialize (I l0 eq_refl). specialize (L2 l0 eq_refl). specialize (L2' l0 eq_refl).
+      destruct l0 as [|a [|b [|c l0]]]; simpl in *; try lia.
+      exists a, b. split; [reflexivity|]. split; apply as_int_of_type; apply I; simpl; auto.
+    + left. exact (as_int_of_type _ Ti).
+Qed.
+
+Ltac enum_ft_tac :=
+  match goal with j : json |- _ =>
+    to_obj j; eexists; split; [reflexivity|]; repeat split;
+    [ req; use_enum
+    | req; vk int_size_shape
+    | opt; vk opt_int_min_1_shape
+    | opt; vk opt_base_shape
+    | req
+    | use_keys ] end.
+
+Lemma mappings_of x :
+  ((has_type_in x [TObj] = true /\ True) /\
+   (forall m0, x = JObj m0 ->
+      (forall k x0, In (k, x0) m0 -> pat_match PAny k = true ->
+         has_type_in x0 [TArr] = true /\
+         (forall l, x0 = JArr l -> 1 <= List.length l) /\
+         (forall l, x0 = JArr l -> forall x1, In x1 l ->
+            ((has_type_in x1 [TArr] = true /\ True) /\
+             (forall l0, x1 = JArr l0 -> forall x2, In x2 l0 -> has_type_in x2 [TInt] = true /\ True) /\
+             (forall l0, x1 = JArr l0 -> 2 <= List.length l0) /\
+             (forall l0, x1 = JArr l0 -> List.length l0 <= 2) /\ True \/
+             (has_type_in x1 [TArr] = false \/ False) /\ has_type_in x1 [TInt] = true /\ True) /\ True) /\
+         True) /\ True) /\
+   (forall m0, x = JObj m0 -> 1 <= List.length m0) /\ True \/
+   (has_type_in x [TObj] = false \/ False) /\ has_type_in x [TNull] = true /\ True) ->
+  mappings_doc false x.
+Proof.
+  intros H. the_or.
+  - right. match goal with T : has_type_in x [TObj] = true |- _ => destruct (has_type_obj _ T) as [mm ->] end.
+    inst. flat. exists mm. split; [reflexivity|]. split; [apply nonempty_of_length; assumption|].
+    intros k v Hkv.
+    match goal with X : forall k x0, In (k, x0) mm -> _ |- _ => specialize (X k v Hkv eq_refl) end. flat.
+    apply enum_mapping_of; auto.
+    intros l E r Hr. match goal with X : forall l, v = JArr l -> forall x1, In x1 l -> _ |- _ =>
+      specialize (X l E r Hr) end. flat. the_or.
+    + left. repeat split; auto. intros l0 E0 y Hy.
+      match goal with X : forall l0, r = JArr l0 -> forall x2, In x2 l0 -> _ |- _ =>
+        destruct (X l0 E0 y Hy) as [A _]; exact A end.
+    + right. assumption.
+  - left. split; [reflexivity|is_null].
+Qed.
+
+Theorem uenum_ft_shape j : VK (FT "uenum-ft") j -> enum_ft_doc false uenum_names j.
+Proof.
+  unfold VK. intros H. denote_in H (unf_in ft_inl) 14. flat. enum_ft_tac.
+  apply mappings_of. assumption.
+Qed.
+Theorem senum_ft_shape j : VK (FT "senum-ft") j -> enum_ft_doc false senum_names j.
+Proof.
+  unfold VK. intros H. denote_in H (unf_in ft_inl) 14. flat. enum_ft_tac.
+  apply mappings_of. assumption.
+Qed.
+
+Theorem real_ft_shape j : VK (FT "real-ft") j -> real_ft_doc false j.
+Proof.
+  unfold VK. intros H. denote_in H (unf_in ft_inl) 14. flat.
+  to_obj j. eexists; split; [reflexivity|]. repeat split.
+  - req. use_const.
+  - req. match goal with S : V S3 (SRef K_int_size) ?x |- _ =>
+      destruct (int_size_shape _ S) as (z & Ez & _) end.
+    exists z. split; [assumption|]. eapply as_int_enum2; eassumption.
+  - opt. vk opt_int_min_1_shape.
+  - use_keys.
+Qed.
+
+Theorem string_ft_shape j : VK (FT "string-ft") j -> string_ft_doc j.
+Proof.
+  unfold VK. intros H. denote_in H (unf_in ft_inl) 14. flat.
+  to_obj j. eexists; split; [reflexivity|]. repeat split.
+  - req. use_enum.
+  - use_keys.
+Qed.
+
+(* static array: the element is valid against `ft` again; `length`, WHEN PRESENT, is >= 0 *)
+Theorem static_array_ft_shape j :
+  VK (FT "static-array-ft") j -> static_array_ft_doc false (VK (FT "ft")) j.
+Proof.
+  unfold VK. intros H. denote_in H (unf_in ft_inl) 14. flat.
+  to_obj j. eexists; split; [reflexivity|]. repeat split.
+  - req. use_const.
+  - req. assumption.
+  - opt. use_ge.
+  - use_keys.
+Qed.
+
+Lemma singleton_of_length {A} (l : list A) : 1 <= List.length l -> List.length l <= 1 -> exists a, l = [a].
+Proof. destruct l as [|a [|b l]]; simpl; intros; try lia. eauto. Qed.
+
+(* structure: member objects of members whose name matches the identifier pattern *)
+Theorem struct_ft_shape j :
+  VK (FT "struct-ft") j -> struct_ft_doc false (VK (FT "ft")) j.
+Proof.
+  unfold VK. intros H. denote_in H (unf_in ft_inl) 14. flat.
+  to_obj j. eexists; split; [reflexivity|]. repeat split.
+  - req. use_enum.
+  - opt. vk opt_int_min_1_shape.
+  - opt. the_or; [right|left; is_null].
+    match goal with T : has_type_in ?x [TArr] = true |- _ => destruct (has_type_arr _ T) as [l ->] end.
+    inst. exists l. split; [reflexivity|]. intros e He.
+    match goal with X : forall x0, In x0 l -> _ |- _ => specialize (X e He) end. flat.
+    match goal with T : has_type_in e [TObj] = true |- _ => destruct (has_type_obj _ T) as [me ->] end.
+    inst. flat.
+    match goal with L1 : 1 <= List.length me, L2 : List.length me <= 1 |- _ =>
+      destruct (singleton_of_length _ L1 L2) as [[name v] ->] end.
+    exists name, v. split; [reflexivity|]. split; [discriminate|]. intros _ Hn.
+    split; [apply match_ident_spec; exact Hn|].
+    match goal with X : forall k x1, In (k, x1) [(name, v)] -> _ |- _ =>
+      specialize (X name v (or_introl eq_refl) Hn) end. flat.
+    match goal with T : has_type_in v [TObj] = true |- _ => destruct (has_type_obj _ T) as [mo ->] end.
+    inst. flat. exists mo. split; [reflexivity|]. split.
+    + req. assumption.
+    + use_keys.
+  - use_keys.
+Qed.
+
+(* ---------------------------------------------------------------- `ft`: dispatch on the class *)
+
+Definition cls_inl := map (fun k => FT k)
+  ["ft"; "ft-base"; "uint-ft-class-prop"; "sint-ft-class-prop"; "uenum-ft-class-prop";
+   "senum-ft-class-prop"; "real-ft-class-prop"; "string-ft-class-prop";
+   "static-array-ft-class-prop"; "struct-ft-class-prop"].
+
+Fixpoint all_jstr (vs : list json) : bool :=
+  match vs with [] => true | JStr _ :: vs => all_jstr vs | _ => false end.
+Lemma enum_mem_all_str x vs :
+  all_jstr vs = true -> enum_mem x vs = true -> exists s, x = JStr s /\ In s (strs_of vs).
+Proof.
+  unfold enum_mem. induction vs as [|v vs IH]; simpl; [discriminate|].
+  destruct v; try discriminate. intros A H. apply orb_true_iff in H. destruct H as [H|H].
+  - destruct x; simpl in H; try discriminate; try (destruct f; discriminate).
+    apply String.eqb_eq in H. subst. eexists; split; [reflexivity|left; reflexivity].
+  - destruct (IH A H) as (s0 & E & I). exists s0; split; [exact E|right; exact I].
+Qed.
+
+(* in the right-hand branch of an `if` of `ft`, the class would have to be outside the list *)
+Ltac not_this_class Hc :=
+  exfalso; flat;
+  match goal with E : JObj _ = JObj _ |- _ => injection E as <- end;
+  match goal with L : lookup "class" _ = Some _ |- _ => rewrite Hc in L; injection L as <- end;
+  repeat match goal with D : _ \/ _ |- _ => destruct D as [D|D] end;
+  try contradiction;
+  match goal with D : _ = false |- _ => vm_compute in D; discriminate D end.
+Ltac this_class H Hc := destruct H as [H|H]; [flat; unfold VK; assumption | not_this_class Hc].
+
+Theorem ft_dispatch j : VK (FT "ft") j ->
+  exists m c, j = JObj m /\ lookup "class" m = Some (JStr c) /\ In c class_names /\
+    (In c uint_names -> VK (FT "uint-ft") j) /\ (In c sint_names -> VK (FT "sint-ft") j) /\
+    (In c uenum_names -> VK (FT "uenum-ft") j) /\ (In c senum_names -> VK (FT "senum-ft") j) /\
+    (In c real_names -> VK (FT "real-ft") j) /\ (In c string_names -> VK (FT "string-ft") j) /\
+    (In c sarray_names -> VK (FT "static-array-ft") j) /\
+    (In c struct_names -> VK (FT "struct-ft") j).
+Proof.
+  unfold VK. intros H. denote_in H (unf_in cls_inl) 14. flat.
+  to_obj j.
+  match goal with Hk : has_key "class" m = true |- _ => destruct (has_key_lookup _ _ Hk) as [x Hx] end.
+  match goal with X : forall x, lookup "class" m = Some x -> enum_mem x _ = true /\ True |- _ =>
+    destruct (X x Hx) as [E _]; clear X end.
+  apply enum_mem_all_str in E; [|reflexivity]. destruct E as (c & -> & Hin).
+  exists m, c. split; [reflexivity|]. split; [exact Hx|]. split; [exact Hin|].
+  repeat split; intros Hc; simpl in Hc;
+    repeat (destruct Hc as [<-|Hc]; [|try contradiction]);
+    match goal with
+    | X : _ /\ V S3 (SRef ?k) (JObj m) \/ _ |- V S3 (SRef ?k) (JObj m) => this_class X Hx
+    end.
+Qed.
+
+(* ---------------------------------------------------------------- the whole field type tree *)
+
+Lemma static_array_mono strict (P Q : json -> Prop) j :
+  (forall x, jsize x < jsize j -> P x -> Q x) ->
+  static_array_ft_doc strict P j -> static_array_ft_doc strict Q j.
+Proof.
+  intros PQ (m & -> & C & (x & Hx & Px) & L & K). exists m. split; [reflexivity|].
+  split; [exact C|]. split; [|split; assumption].
+  exists x. split; [exact Hx|]. apply PQ; [|exact Px]. eapply jsize_lookup; eauto.
+Qed.
+Lemma members_mono strict (P Q : json -> Prop) x :
+  (forall y, jsize y < jsize x -> P y -> Q y) ->
+  members_doc strict P x -> members_doc strict Q x.
+Proof.
+  intros PQ (l & -> & M). exists l. split; [reflexivity|]. intros e He.
+  destruct (M e He) as (name & v & -> & A & B).
+  pose proof (jsize_In_arr _ _ He) as S1.
+  assert (S2 : jsize v < jsize (JObj [(name, v)])) by (simpl; lia).
+  assert (MO : member_obj P v -> member_obj Q v).
+  { intros (mo & -> & (y & Hy & Py) & K). exists mo. split; [reflexivity|]. split; [|exact K].
+    exists y. split; [exact Hy|]. apply PQ; [|exact Py].
+    pose proof (jsize_lookup _ _ _ Hy). lia. }
+  exists name, v. split; [reflexivity|]. split.
+  - intros S. destruct (A S). auto.
+  - intros S N. destruct (B S N). auto.
+Qed.
+Lemma struct_mono strict (P Q : json -> Prop) j :
+  (forall x, jsize x < jsize j -> P x -> Q x) ->
+  struct_ft_doc strict P j -> struct_ft_doc strict Q j.
+Proof.
+  intros PQ (m & -> & C & A & M & K). exists m. split; [reflexivity|].
+  split; [exact C|]. split; [exact A|]. split; [|exact K].
+  intros x Hx. destruct (M x Hx) as [N|D]; [left; exact N|right].
+  pose proof (jsize_lookup _ _ _ Hx) as S1.
+  eapply members_mono; [|exact D]. intros y Sy. apply PQ. lia.
+Qed.
+
+Theorem ft_tree : forall j, VK (FT "ft") j -> ft_doc false j.
+Proof.
+  intros j. remember (jsize j) as n eqn:En. revert j En.
+  induction n as [n IH] using lt_wf_ind. intros j -> H.
+  destruct (ft_dispatch j H) as (m & c & -> & Hc & Hin & Du & Ds & Due & Dse & Dr & Dst & Dsa & Dstruct).
+  assert (REC : forall x, jsize x < jsize (JObj m) -> VK (FT "ft") x -> ft_doc false x).
+  { intros x Sx Vx. exact (IH (jsize x) Sx x eq_refl Vx). }
+  unfold class_names in Hin. repeat (apply in_app_or in Hin; destruct Hin as [Hin|Hin]).
+  - apply FtUint, uint_ft_shape; auto.
+  - apply FtSint, sint_ft_shape; auto.
+  - apply FtUenum, uenum_ft_shape; auto.
+  - apply FtSenum, senum_ft_shape; auto.
+  - apply FtReal, real_ft_shape; auto.
+  - apply FtString, string_ft_shape; auto.
+  - apply FtSArray. eapply static_array_mono; [exact REC|]. apply static_array_ft_shape; auto.
+  - apply FtDArray. exists m. split; [reflexivity|]. split; [|discriminate].
+    exists (JStr c). split; [exact Hc|]. exists c. auto.
+  - apply FtStruct. eapply struct_mono; [exact REC|]. apply struct_ft_shape; auto.
 Qed.
